@@ -56,6 +56,7 @@ const (
 	ERROR_STATEMENT_CODE                 = "error-statement/code"
 	SYNTHETIC_STATEMENT_SCOPE            = "synthetic-statement/scope"
 	SYNTHETIC_BASE64_STATEMENT_SCOPE     = "synthetic-base64-statement/scope"
+	ESI_STATEMENT_SCOPE                  = "esi-statement/scope"
 	GOTO_DUPLICATED                      = "goto/duplicated"
 	GOTO_SYNTAX                          = "goto/syntax"
 	CONDITION_LITERAL                    = "condition/literal"
@@ -108,6 +109,7 @@ var references = map[Rule]string{
 	ERROR_STATEMENT_CODE:             "https://developer.fastly.com/reference/vcl/statements/error/#best-practices-for-using-status-codes-for-errors",
 	SYNTHETIC_STATEMENT_SCOPE:        "https://developer.fastly.com/reference/vcl/statements/synthetic/",
 	SYNTHETIC_BASE64_STATEMENT_SCOPE: "https://developer.fastly.com/reference/vcl/statements/synthetic-base64/",
+	ESI_STATEMENT_SCOPE:              "https://developer.fastly.com/reference/vcl/statements/esi/",
 	DISALLOW_EMPTY_RETURN:            "https://developer.fastly.com/reference/vcl/subroutines#returning-a-state",
 	UNRECOGNIZE_CALL_SCOPE:           "https://github.com/ysugimoto/falco/blob/main/docs/linter.md#user-defined-subroutine",
 	SUBROUTINE_RECURSIVE_CALL:        "https://www.fastly.com/documentation/reference/vcl/subroutines/#recursion",
